@@ -5,6 +5,7 @@ import Drpc.Migrate
   Tie (T1) for C16: the functions of drpcmigrate the model mirrors have the fingerprints the model was
   written against, and the header constant is the one in the source.
 -/
+set_option maxRecDepth 100000
 namespace Drpc.Tie.C16
 open Drpc
 
